@@ -19,6 +19,7 @@ REPAIRED = 7      # cfg bits of the model variant that follows the current (repa
 def env():
     e = dict(os.environ); e["OMP_NUM_THREADS"] = "1"; e["OPENBLAS_NUM_THREADS"] = "1"; return e
 
+LFAIL = {}        # (kind, file) -> object left by a failed load into a fresh object
 PERTURB = []      # (machine, case dict, description, output under MALLOC_PERTURB_=165, under 90) for one-process runs that differ
 
 def hrun_p(hb, line, cwd, machine, case, timeout=300):
@@ -416,6 +417,7 @@ def build_catalog(ck, wd):
          ("matrix-2x3.txt", "L " + wl("m23.txt", b"1 2 3\n4 5 6\n")), ("matrix-3x3.txt", "L " + wl("m33.txt", b"1 2 3\n4 5 6\n7 8 10\n")),
          ("sym-3.txt", "L " + wl("s3.txt", b"1 2 3\n4 5\n6\n")), ("vector-4.txt", "L " + wl("v4.txt", b"1\n2\n3\n4\n")),
          ("vector-3.bin", "L " + wl("v3.bin", struct.pack("<I", 3) + struct.pack("<ddd", 1.0, 2.0, 3.0))),
+         ("matrix-2x2.bin", "L " + wl("m22.bin", struct.pack("<II", 2, 2) + struct.pack("<dddd", 1.0, 2.0, 3.0, 4.0))),
          ("missing", "L %s/nothere.txt" % ld), ("garbage.txt", "L " + wl("g.txt", b"hello world, this is not a matrix file at all\n"))]
     # several head models in the same coordinate frame (machine 8) and the source mesh of SurfSourceMat
     nst = models.nested([0.5, 0.8, 1.0], [0.33, 0.0125, 0.33], level=1); gn, cn = models.write_model(nst, os.path.join(gd, "nst"), stem="nst")
@@ -468,16 +470,16 @@ def object_worlds(ck, hb, wd, cat):
     for i in range(len(cat["M"])):
         o = res[("M", i)]
         if o is None: Mw.append(None); continue
-        st, nv = o[0], o[1]; vs = [rn(h) for h in o[2:2 + nv]]; nt = o[2 + nv]; ts = o[3 + nv:3 + nv + 3 * nt]; so = o[3 + nv + 3 * nt]; sf = o[4 + nv + 3 * nt]
-        Mw.append([st, nv] + vs + [nt] + ts + [so, sf])
-    Lw = {}
+        st, nv = o[0], o[1]; vs = [rn(h) for h in o[2:2 + nv]]; nt = o[2 + nv]; ts = o[3 + nv:3 + nv + 3 * nt]; so = o[3 + nv + 3 * nt]; sf = o[4 + nv + 3 * nt]; so2 = o[5 + nv + 3 * nt]; sf2 = o[6 + nv + 3 * nt]
+        Mw.append([st, nv] + vs + [nt] + ts + [so, sf, so2, sf2])
+    Lw = {}; LFAIL.clear()
     for k in range(4):
         Lw[k] = []
         for i in range(len(cat["L"])):
             o = res[("L%d" % k, i)]
             ob = split_lenpref(o)[0] if o else None
             if ob is None: Lw[k].append(None)
-            elif ob[0] != 0: Lw[k].append([ob[0], 0, 0, 0])
+            elif ob[0] == -77: Lw[k].append([ob[1], 0, 0, 0]); LFAIL[(k, i)] = ob[2:]        # state a failed load leaves in a FRESH object
             else: Lw[k].append([0, ob[1], ob[2], ob[3]] + ob[4:])
     MF = [res[("MF", i)] for i in range(len(cat["M"]))]
     CF = [res[("CF", k)] for k in range(N_COMPUTE)]
@@ -504,10 +506,10 @@ def check_objects(ck, hb, quick, replay):
              [(0, 9), (4, 0), (0, 0), (1, 0)], [(4, 0), (0, 2)], [(0, 0), (4, 0), (0, 14), (1, 0)],                          # programmatic construction, then load
              [(0, 16), (0, 0)], [(0, 7), (0, 0), (0, 16), (0, 7), (0, 0), (1, 0)]]                                          # failed .geom loads, then a valid one
     sseqs = [(0, [0, 0]), (0, [0, 2]), (1, [9, 9]), (0, [0, 11]), (0, [4, 12, 13]), (1, [9, 12]), (0, [11, 1, 12, 14])]
-    mseqs = [[(0, 0), (0, 1)], [(0, 0), (1, 0), (0, 0)], [(0, 0), (1, 0), (1, 0)],
+    mseqs = [[(0, 0), (0, 1)], [(0, 0), (1, 0), (0, 0)], [(0, 0), (1, 0), (1, 0)], [(0, 0), (1, 0), (2, 0)], [(0, 3), (1, 0), (2, 0), (1, 0)], [(0, 1), (2, 0), (1, 0), (2, 0)],
              [(0, 13), (0, 9)], [(0, 9), (0, 9)], [(0, 10), (0, 9), (0, 11), (0, 12)]]       # tetra then seam; seam twice; degenerate inputs in a row
     nL = len(cat["L"])
-    lseqs = [(3, [0, 1]), (3, [3, 2]), (1, [4, 5])]
+    lseqs = [(3, [0, 1]), (3, [3, 2]), (1, [4, 5]), (0, [7, 9]), (1, [5, 8]), (0, [7, 8, 9, 7]), (2, [6, 9])]
     if replay:
         lseqs = [(r["kind"], r["ops"]) for r in replay if r["machine"] == "linop"]
         gseqs = [[tuple(o) for o in r["ops"]] for r in replay if r["machine"] == "geometry"]
@@ -533,7 +535,7 @@ def check_objects(ck, hb, quick, replay):
             ge = 1 if rng.random() < 0.25 else 0
             sseqs.append((ge, [rng.randrange(nS) for _ in range(rng.randint(2, L))]))
         for _ in range(40 if quick else 400):
-            mseqs.append([((1, 0) if rng.random() < 0.15 else (0, rng.randrange(nM))) for _ in range(rng.randint(2, L))])
+            mseqs.append([((1, 0) if rng.random() < 0.15 else (2, 0) if rng.random() < 0.12 else (0, rng.randrange(nM))) for _ in range(rng.randint(2, L))])
     def flat(l): return [x for w in l for x in w]
     gcases = ["c17 " + " ".join(map(str, [2, 1, nG] + flat(Gw) + [len(h)] + flat(h))) for h in gseqs]
     scases = ["c17 " + " ".join(map(str, [3, 1, ge, nS] + flat(Sw[ge]) + [len(h)] + h)) for ge, h in sseqs]
@@ -553,7 +555,24 @@ def check_objects(ck, hb, quick, replay):
         rp = dict(kind="object-history", machine="linop", cases=[dict(machine="linop", kind=k, ops=list(h))], history=names, replay_cmd="./check C17 --replay <this file>")
         if ints(o) is None:
             ck.violation("linop: crash in history " + names, "the harness crashed (%s): %s" % (o, names), rp); continue
-        mt = split_lenpref([int(t) for t in m.split()]); ht = split_lenpref(ints(o))
+        mt = split_lenpref([int(t) for t in m.split()]); hraw = split_lenpref(ints(o))
+        # law for a load that throws: the object is left either unchanged or as a failed load leaves a fresh object
+        prev = None; lawbad = None
+        EMPTY = {0: [0, 0, 1, 0, 1], 1: [0, 0, 1, 0, 1], 2: [0, 0, 1, 0, 1], 3: [0, 0, 0]}[k]
+        for q, x in enumerate(hraw):
+            if x and x[0] == -77:
+                left = x[2:]
+                before_ = prev if prev is not None else EMPTY
+                cleared = (k == 3 and left[2:] == [0] and left[:2] == before_[:2])      # SparseMatrix::load clears the entries first (dimensions kept)
+                if left != before_ and left != LFAIL.get((k, h[q])) and not cleared and lawbad is None: lawbad = (q, left, prev if prev is not None else EMPTY, LFAIL.get((k, h[q])))
+                prev = left
+            else: prev = x[1:]
+        ht = [([x[1]] if x and x[0] == -77 else x) for x in hraw]
+        if lawbad:
+            q, left, before, ff = lawbad
+            ck.violation("linop: a failed load leaves the object neither unchanged nor in the fresh-failed state (%s)" % (names if len(h) <= 3 else "%d loads" % len(h)),
+                         "load %d of the history [%s] throws (status %s) and leaves the %s object as (nlin,ncol,#entries,...)=%s; before the load it was %s; a fresh object after the same failed load is %s" % (q, names, ht[q][0], KIND[k], left[:8], before[:8], (ff or [])[:8]), rp)
+            continue
         for q in range(min(len(ht), len(h))): stats["linop"]["status"][str(ht[q][0])] = stats["linop"]["status"].get(str(ht[q][0]), 0) + 1
         diff = [q for q in range(len(h)) if q >= len(ht) or q >= len(mt) or ht[q] != mt[q]]
         if diff:
@@ -698,7 +717,7 @@ def check_objects(ck, hb, quick, replay):
     WIT = [(0, 0), (0, 1)]
     for h, m, mid, o in zip(mseqs, mm, mi, hm):
         stats["mesh"]["seqs"] += 1; stats["mesh"]["ops"] += len(h)
-        names = "; ".join(("load " + cat["M"][i][0]) if op == 0 else "SurfSourceMat(Head1,mesh)" for op, i in h)
+        names = "; ".join(("load " + cat["M"][i][0]) if op == 0 else "SurfSourceMat(Head1,mesh)" if op == 1 else "SurfSourceMat(second head,mesh)" for op, i in h)
         rp = dict(kind="object-history", machine="mesh", cases=[dict(machine="mesh", ops=[list(x) for x in h])], history=names, replay_cmd="./check C17 --replay <this file>")
         if ints(o) is None:
             ck.violation("mesh: crash in history " + names, "the harness crashed (%s): %s" % (o, names), rp); continue
@@ -715,7 +734,7 @@ def check_objects(ck, hb, quick, replay):
                          % (q, names, a[0:1] + a[2:7], a[-2], a[-1], b[0:1] + b[2:7], b[-2], b[-1]), rp)
             continue
         for q, (op, i) in enumerate(h):
-            stats["mesh"]["op"]["load" if op == 0 else "SurfSourceMat"] = stats["mesh"]["op"].get("load" if op == 0 else "SurfSourceMat", 0) + 1
+            on = ["load", "SurfSourceMat", "SurfSourceMat(second head)"][op]; stats["mesh"]["op"][on] = stats["mesh"]["op"].get(on, 0) + 1
             if q < len(ht) and op == 0: stats["mesh"]["status"][str(ht[q][0])] = stats["mesh"]["status"].get(str(ht[q][0]), 0) + 1
         # everything but the private geometry (status, #mesh vertices, #triangles, flags) must be that of a fresh Mesh
         def loc(o): return o[0:1] + o[2:7] + o[7 + 3 * o[3]:]          # without the private geometry: size and global triangle indices
@@ -724,6 +743,12 @@ def check_objects(ck, hb, quick, replay):
             q = fq[0]
             ck.violation("mesh: status/sizes/flags/local triangles differ after history (%s)" % (names if len(h) <= 3 else "%d operations" % len(h)),
                          "operation %d of [%s] on one Mesh gives (status,#geometry vertices,#vertices,#triangles,outermost,current_barrier,isolated)=%s, a fresh Mesh gives %s" % (q, names, ht[q][:7], it[q][:7]), rp)
+            continue
+        aq = [q for q in range(min(len(h), len(ht), len(mt))) if h[q][0] != 0 and ht[q][0] != mt[q][0]]
+        if aq:
+            q = aq[0]
+            ck.violation("mesh: outcome of %s depends on earlier assemblies on the same Mesh object (%s)" % ("SurfSourceMat(Head1)" if h[q][0] == 1 else "SurfSourceMat(second head)", names if len(h) <= 4 else "%d operations" % len(h)),
+                         "operation %d of [%s]: outcome (0 = exception, else fingerprint of the matrix) %d on the used Mesh object, %d on a freshly loaded one" % (q, names, ht[q][0], mt[q][0]), rp)
             continue
         diff = [q for q in range(len(h)) if q >= len(ht) or q >= len(mt) or ht[q] != mt[q]]
         if diff:
@@ -744,7 +769,7 @@ def check_objects(ck, hb, quick, replay):
         if m == "multi": return "; ".join("%s(%s)" % (["DipSourceMat", "DipSource2InternalPotMat", "Surf2VolMat", "SurfSourceMat"][t], cat["X"][g][0]) for g, t in c["ops"])
         if m == "geometry": return "; ".join(("load " + cat["G"][i][0]) if op == 0 else (["", "HeadMat", "DipSourceMat", "finalize()", "programmatic construction"][op] if op < 5 else "set_conductivity(" + cat["G"][i][0] + ")+finalize()") for op, i in c["ops"])
         if m == "sensors": return "; ".join("load " + cat["S"][i][0] for i in c["ops"])
-        if m == "mesh": return "; ".join(("load " + cat["M"][i][0]) if op == 0 else "SurfSourceMat(Head1,mesh)" for op, i in c["ops"])
+        if m == "mesh": return "; ".join(("load " + cat["M"][i][0]) if op == 0 else "SurfSourceMat(Head1,mesh)" if op == 1 else "SurfSourceMat(second head,mesh)" for op, i in c["ops"])
         return "; ".join("%s::load %s" % (KIND[c["kind"]], cat["L"][i][0]) for i in c["ops"])
     report_perturb(ck, dsc)
     stats["catalog"] = dict(linop=[l for l, _ in cat["L"]], geometry=[l for l, _ in cat["G"]], sensors=[l for l, _ in cat["S"]], mesh=[l for l, _ in cat["M"]])
